@@ -227,7 +227,7 @@ func resGenSpace(rng *Rng) string {
 		switch x := rng.Intn(100); {
 		case x < 50:
 			b.WriteString(resAsciiSpaces[rng.Intn(len(resAsciiSpaces))])
-		case x < 90:
+		case x < 95:
 			b.WriteString(resUnicodeSpaces[rng.Intn(len(resUnicodeSpaces))])
 		default:
 			b.WriteString(resNotSpaces[rng.Intn(len(resNotSpaces))])
@@ -237,7 +237,7 @@ func resGenSpace(rng *Rng) string {
 }
 
 func resGenNumber(rng *Rng) string {
-	switch rng.Intn(26) {
+	switch rng.Intn(36) {
 	case 0:
 		return "0"
 	case 1:
@@ -278,18 +278,21 @@ func resGenNumber(rng *Rng) string {
 
 func resGenString(rng *Rng) string {
 	switch x := rng.Intn(100); {
-	case x < 45:
+	case x < 55:
 		// valid shape: [space] digits [re-space] suffix [space]
 		mid := ""
 		if rng.Chance(25) {
 			mid = []string{" ", "\t", "  ", "\n", "\f", "\r", " \t "}[rng.Intn(7)]
 		}
 		return resGenSpace(rng) + resGenNumber(rng) + mid + resSuffixes[rng.Intn(len(resSuffixes))] + resGenSpace(rng)
-	case x < 75:
+	case x < 80:
 		// near valid
 		switch rng.Intn(15) {
-		case 0, 12, 13, 14:
+		case 0, 12:
 			return resGenNumber(rng) + resBadSuffixes[rng.Intn(len(resBadSuffixes))]
+		case 13, 14:
+			// accepted by the regexp, not in the multiplier table
+			return resGenSpace(rng) + strconv.Itoa(rng.Intn(5000)) + []string{"K", "ki", "mi", "m"}[rng.Intn(4)] + resGenSpace(rng)
 		case 1:
 			return []string{"+", "-", "+-", " -"}[rng.Intn(4)] + resGenNumber(rng) + resSuffixes[rng.Intn(len(resSuffixes))]
 		case 2:
@@ -313,7 +316,7 @@ func resGenString(rng *Rng) string {
 		default:
 			return "\uff11\uff10" + resSuffixes[rng.Intn(len(resSuffixes))] // full-width digits
 		}
-	case x < 90:
+	case x < 92:
 		// random mix of the relevant alphabet
 		alpha := []string{"0", "1", "9", "m", "k", "K", "M", "G", "T", "P", "E", "i", " ", "\t", "\v", "\u00a0", "\u2003", "\xe2", "\x80", "-", "+"}
 		var b strings.Builder
